@@ -765,6 +765,9 @@ def run(ctx, model=True):
     )
     items = []  # (case, mode, obs)
     for case in _cases(ctx):
+        if len({v.sig for v in res.violations}) >= 1 and len(res.violations) > 80:
+            res.notes.append("case generation stopped early: more than 80 oracle violations already recorded")
+            break
         for mode, obs in _observe(case):
             items.append((case, mode, obs))
             if mode == "frac":
